@@ -35,6 +35,20 @@ func dumpModel(w *World, what string) {
 					fmt.Println("  FAIL", o.Rule, o.Instance, o.Detail)
 				}
 			}
+		case "inlineparse":
+			w2, notes, err := w.inlinedParserWorld(k)
+			fmt.Println(k, "notes:", notes, "err:", err)
+			if w2 != nil {
+				for name, src := range w2.Overlay {
+					fmt.Println("=====", name)
+					lines := strings.Split(string(src), "\n")
+					for i, l := range lines {
+						if len(l) > 200 || os.Getenv("DUMP_ALL") != "" {
+							fmt.Printf("%d: %s\n", i+1, l)
+						}
+					}
+				}
+			}
 		case "inline":
 			if k != "40" {
 				continue
